@@ -2,8 +2,13 @@
    _maybe_store, _generate_key, _resolve_reference, _cache_deserialized) over the dict / table
    store of Mem/SQLiteClientDataStore.  Python objects live in a heap (address -> value) so
    that the process-local LRU of DESERIALISED OBJECTS can alias them; the facts record
-   (comparison operators, prefix, what the LRU holds) is generated from the source
-   (gen/Roundtrip_gen.v), the conf record is the run-time configuration.  Definitions only. *)
+   (comparison operators, prefix, what the LRU holds, whether _maybe_store writes the backend row
+   unconditionally or skips keys remembered in a process-local set, whether purge() forgets that
+   set) is generated from the source (gen/Roundtrip_gen.v), the conf record is the run-time
+   configuration.  The backend (store) is shared between store instances; the LRU and the
+   remembered-key set are local to one instance: OResCold is the resolution by ANOTHER instance
+   (a worker: empty LRU, same backend), OPurge the purge() of this instance, OPurgeExt a purge of
+   the backend by another instance.  Definitions only. *)
 From Coq Require Import List NArith Bool.
 Import ListNotations.
 From PV Require Import Model.ArgsId.
@@ -18,7 +23,10 @@ Record cds_facts : Set := {
   lru_holds_object : bool;    (* true: the LRU keeps the Python object itself; false: the serialized text *)
   ref_passthrough : bool;     (* a str that already is a reference is returned as it is *)
   ref_prefix : str;           (* ReservedKeys.CLIENT_DATA *)
-  ref_sep : str               (* the colon between prefix and digest *)
+  ref_sep : str;              (* the colon between prefix and digest *)
+  store_skip_known : bool;    (* true: _maybe_store skips the backend write for a key found in a process-local
+                                 "already stored" set; false: every externalisation writes the row *)
+  purge_clears_known : bool   (* purge() of the instance also forgets that set (irrelevant when it does not exist) *)
 }.
 
 Record cds_conf : Set := { disabled : bool; min_size : N; max_size : N; lru_cap : N }.
@@ -59,6 +67,9 @@ Fixpoint removeS {A : Type} (k : str) (l : list (str * A)) : list (str * A) :=
   | (k', v') :: r => if str_eqb k k' then removeS k r else (k', v') :: removeS k r
   end.
 
+Fixpoint memS (k : str) (l : list str) : bool :=
+  match l with [] => false | k' :: r => str_eqb k k' || memS k r end.
+
 Fixpoint lookupA {A : Type} (k : N) (l : list (N * A)) : option A :=
   match l with
   | [] => None
@@ -88,16 +99,17 @@ Section CDS.
     store : list (str * str);              (* reference key -> serialized content *)
     lru : list (str * cached);
     heap : list (N * V);                   (* live Python objects *)
-    next : N }.
+    next : N;
+    known : list str }.                    (* keys this instance remembers having written (only used when store_skip_known) *)
 
-  Definition st0 : cds_st := {| store := []; lru := []; heap := []; next := 0 |}.
+  Definition st0 : cds_st := {| store := []; lru := []; heap := []; next := 0; known := [] |}.
 
   Definition mkkey (f : cds_facts) (s : str) : str := ref_prefix f ++ ref_sep f ++ H s.
   Definition is_ref (f : cds_facts) (d : str) : bool := starts_with (ref_prefix f) d.
   Definition slen (s : str) : N := N.of_nat (length s).
 
   Definition alloc (st : cds_st) (v : V) : cds_st * N :=
-    ({| store := store st; lru := lru st; heap := (next st, v) :: heap st; next := next st + 1 |}, next st).
+    ({| store := store st; lru := lru st; heap := (next st, v) :: heap st; next := next st + 1; known := known st |}, next st).
 
   Definition entry (f : cds_facts) (a : N) (s : str) : cached :=
     if lru_holds_object f then CObj a else CText s.
@@ -112,9 +124,10 @@ Section CDS.
       let s := ser v in
       if route f c (slen s) then
         let k := mkkey f s in
-        ({| store := upsertS k s (store st1);
+        ({| store := if store_skip_known f && memS k (known st1) then store st1 else upsertS k s (store st1);
             lru := lru_put (lru_cap c) k (entry f a s) (lru st1);
-            heap := heap st1; next := next st1 |}, k)
+            heap := heap st1; next := next st1;
+            known := if store_skip_known f then k :: known st1 else known st1 |}, k)
       else (st1, s)
     end.
 
@@ -123,23 +136,44 @@ Section CDS.
     if is_ref f d then
       match lookupS d (lru st) with
       | Some (CObj a) =>
-          ({| store := store st; lru := lru_touch d (CObj a) (lru st); heap := heap st; next := next st |}, Some a)
+          ({| store := store st; lru := lru_touch d (CObj a) (lru st); heap := heap st; next := next st; known := known st |}, Some a)
       | Some (CText s) =>
           let (st1, a) := alloc st (deser s) in
-          ({| store := store st1; lru := lru_touch d (CText s) (lru st1); heap := heap st1; next := next st1 |}, Some a)
+          ({| store := store st1; lru := lru_touch d (CText s) (lru st1); heap := heap st1; next := next st1; known := known st1 |}, Some a)
       | None =>
         match lookupS d (store st) with
         | None => (st, None)
         | Some s =>
           let (st1, a) := alloc st (deser s) in
           ({| store := store st1; lru := lru_put (lru_cap c) d (entry f a s) (lru st1);
-              heap := heap st1; next := next st1 |}, Some a)
+              heap := heap st1; next := next st1; known := known st1 |}, Some a)
         end
       end
     else let (st1, a) := alloc st (deser d) in (st1, Some a).
 
-  (* operations of a process: serialize a value, resolve a text, mutate a live object in place *)
-  Inductive op : Type := OSer (v : V) (dis : bool) | ORes (d : str) | OMut (a : N) (v : V).
+  (* resolve(data) on ANOTHER store instance over the same backend (a worker process, a fresh app on the
+     same database): its LRU is empty, only the backend row counts; this instance's LRU is untouched *)
+  Definition resolve_cold (f : cds_facts) (st : cds_st) (d : str) : cds_st * option N :=
+    if is_ref f d then
+      match lookupS d (store st) with
+      | None => (st, None)
+      | Some s => let (st1, a) := alloc st (deser s) in (st1, Some a)
+      end
+    else let (st1, a) := alloc st (deser d) in (st1, Some a).
+
+  (* purge() of this instance: LRU and backend are emptied; the remembered keys only if the source says so *)
+  Definition purge_own (f : cds_facts) (st : cds_st) : cds_st :=
+    {| store := []; lru := []; heap := heap st; next := next st;
+       known := if purge_clears_known f then [] else known st |}.
+
+  (* purge() of another instance on the same backend: only the shared rows disappear *)
+  Definition purge_ext (st : cds_st) : cds_st :=
+    {| store := []; lru := lru st; heap := heap st; next := next st; known := known st |}.
+
+  (* operations: serialize a value, resolve a text, mutate a live object in place, resolve on another
+     instance, purge by this instance, purge by another instance *)
+  Inductive op : Type := OSer (v : V) (dis : bool) | ORes (d : str) | OMut (a : N) (v : V)
+                       | OResCold (d : str) | OPurge | OPurgeExt.
   Inductive out : Type := OutText (s : str) | OutObj (a : N) | OutErr | OutUnit.
 
   Fixpoint set_heap (a : N) (v : V) (h : list (N * V)) : list (N * V) :=
@@ -152,7 +186,10 @@ Section CDS.
     match o with
     | OSer v dis => let (st', d) := serialize f c st v dis in (st', OutText d)
     | ORes d => match resolve f c st d with (st', Some a) => (st', OutObj a) | (st', None) => (st', OutErr) end
-    | OMut a v => ({| store := store st; lru := lru st; heap := set_heap a v (heap st); next := next st |}, OutUnit)
+    | OMut a v => ({| store := store st; lru := lru st; heap := set_heap a v (heap st); next := next st; known := known st |}, OutUnit)
+    | OResCold d => match resolve_cold f st d with (st', Some a) => (st', OutObj a) | (st', None) => (st', OutErr) end
+    | OPurge => (purge_own f st, OutUnit)
+    | OPurgeExt => (purge_ext st, OutUnit)
     end.
 
   Fixpoint run (f : cds_facts) (c : cds_conf) (st : cds_st) (ops : list op) : cds_st :=
@@ -177,8 +214,9 @@ Section CDS.
     end.
 
   Definition is_mut (o : op) : bool := match o with OMut _ _ => true | _ => false end.
+  Definition is_purge (o : op) : bool := match o with OPurge | OPurgeExt => true | _ => false end.
   Definition op_text (o : op) : list str := match o with OSer v _ => [ser v] | _ => [] end.
 End CDS.
 
-Arguments store {V}. Arguments lru {V}. Arguments heap {V}. Arguments next {V}.
-Arguments OSer {V}. Arguments ORes {V}. Arguments OMut {V}.
+Arguments store {V}. Arguments lru {V}. Arguments heap {V}. Arguments next {V}. Arguments known {V}.
+Arguments OSer {V}. Arguments ORes {V}. Arguments OMut {V}. Arguments OResCold {V}. Arguments OPurge {V}. Arguments OPurgeExt {V}.
